@@ -139,19 +139,22 @@ Eval(q, db) ==
     IN  {[id |-> i, lbls |-> PipeOf(q, db, i).lbls] : i \in S}
 
 (*------------------------------------------- metric queries (C08) -------------------------------------------*)
-(* q.mq = [fn, range, step, unit, ugrp, uglbls, agg, grp, glbls, cmpl, cmpa, topfn, topk]                       *)
+(* q.mq = [fn, range, step, unit, ugrp, uglbls, agg, grp, glbls, cmpl, cmpa, topfn, topk, cmpt]                 *)
 (*   range, step and the window q.from, q.to are in ticks; one tick is `unit` seconds (only rates and the 15 s  *)
 (*   shortcut of the mechanism care).  Entries carry len (abstract byte length of the line) and, when the       *)
 (*   pipeline ends with an unwrap stage, the unwrapped value NumVal[labels[unwrap label]].                      *)
 (*   A value is a rational [num, den] in abstract units (the concretiser applies the scale of counts / bytes /  *)
-(*   unwrapped numbers and the seconds per tick); cmpl / cmpa = [op, k4]: compare with k4/4 (per second for a   *)
-(*   rate), op = "" when there is no comparison.                                                                *)
+(*   unwrapped numbers and the seconds per tick); cmpl / cmpa / cmpt = [op, k4]: compare with k4/4 (per second  *)
+(*   for a rate), op = "" when there is no comparison.  A comparison belongs to the expression it is written    *)
+(*   after: cmpl to the range function, cmpa to the vector aggregation, cmpt to topk / bottomk (it filters the  *)
+(*   OUTPUT of the k-selection: bottomk(1, X) > c is empty when the smallest value of X is not above c).        *)
 (*                                                                                                              *)
 (* Definition (the property's words): bucket the matching entries into windows of the range duration            *)
 (* (Bucket(t) = intDiv(t, range) * range), apply the range function, then the vector aggregation with its       *)
-(* by / without grouping, the comparison, topk / bottomk.  The entries that may contribute are those of the     *)
-(* query window widened to whole range buckets.  The output has a point at start + i*step (i = 0 .. (end -      *)
-(* start) div step) with the value of the range bucket that contains that instant.                             *)
+(* by / without grouping, the comparison, topk / bottomk and the comparison written after it.  The entries that *)
+(* may contribute are those of the query window widened to whole range buckets.  The output has a point at      *)
+(* start + i*step (i = 0 .. (end - start) div step) with the value of the range bucket that contains that       *)
+(* instant.                                                                                                     *)
 Bucket(t, r) == (t \div r) * r
 WidenedFrom(q) == Bucket(q.from, q.mq.range)
 WidenedTo(q)   == Bucket(q.to, q.mq.range) + q.mq.range
@@ -243,14 +246,18 @@ AggRows(q, db) ==
 (* topk / bottomk per bucket.  sure: the row is among the k best whatever the order of equal values; maybe: it   *)
 (* ties with the k-th value (the definition leaves the choice open)                                             *)
 Better(q, x, y) == IF q.mq.topfn = "topk" THEN RLess(y.v, x.v) ELSE RLess(x.v, y.v)
-TopRows(q, db) ==
-    LET A == AggRows(q, db)
-    IN  IF q.mq.topfn = "" THEN {[lbls |-> r.lbls, b |-> r.b, v |-> r.v, opt |-> FALSE] : r \in A}
-        ELSE LET same(r) == {x \in A : x.b = r.b}
-                 nbetter(r) == Cardinality({x \in same(r) : Better(q, x, r)})
-                 nnotworse(r) == Cardinality({x \in same(r) : ~Better(q, r, x)})   \* better or equal, including r
-             IN  {[lbls |-> r.lbls, b |-> r.b, v |-> r.v, opt |-> nnotworse(r) > q.mq.topk] :
-                    r \in {rr \in A : nbetter(rr) < q.mq.topk}}
+TopSel(q, A) ==          \* the k-selection over the rows A of its operand
+    IF q.mq.topfn = "" THEN {[lbls |-> r.lbls, b |-> r.b, v |-> r.v, opt |-> FALSE] : r \in A}
+    ELSE LET same(r) == {x \in A : x.b = r.b}
+             nbetter(r) == Cardinality({x \in same(r) : Better(q, x, r)})
+             nnotworse(r) == Cardinality({x \in same(r) : ~Better(q, r, x)})   \* better or equal, including r
+         IN  {[lbls |-> r.lbls, b |-> r.b, v |-> r.v, opt |-> nnotworse(r) > q.mq.topk] :
+                r \in {rr \in A : nbetter(rr) < q.mq.topk}}
+TopRows(q, db) == TopSel(q, AggRows(q, db))
+(* the comparison attached to topk / bottomk keeps, of the selected rows, those whose value passes: selection     *)
+(* first, threshold second.  The two do not commute when the threshold cuts on the side the selection prefers     *)
+(* (bottomk with > >= !=, topk with < <= !=, == on either): a selected row that fails is NOT replaced by the next.*)
+CmpTopRows(q, db) == {r \in TopRows(q, db) : CmpHolds(q, q.mq.cmpt, r.v)}
 
 (* the output points.  The property fixes the VALUES (whole range buckets of matching entries) and the window,   *)
 (* not which instant reports which bucket; the definition therefore only demands                                *)
@@ -260,10 +267,15 @@ TopRows(q, db) ==
 (*   - when the bucket that CONTAINS T has a row, there is a point at T (opt = FALSE marks that record).         *)
 Instants(q) == {q.from + i * q.mq.step : i \in 0..((q.to - q.from) \div q.mq.step)}
 Near(q, b, t) == b - q.mq.step < t /\ t <= b + q.mq.range
-EvalMetric(q, db) ==
-    LET T == TopRows(q, db)
-        series == {r.lbls : r \in T}
+PointsOf(q, T) ==         \* T: rows [lbls, b, v, opt]
+    LET series == {r.lbls : r \in T}
         near(l) == {[t |-> t, v |-> r.v, opt |-> ~(r.b = Bucket(t, q.mq.range) /\ ~r.opt)] :
                       <<t, r>> \in {<<tt, rr>> \in Instants(q) \X {x \in T : x.lbls = l} : Near(q, rr.b, tt)}}
     IN  {s \in {[lbls |-> l, pts |-> near(l)] : l \in series} : s.pts # {}}
+EvalMetric(q, db) == PointsOf(q, CmpTopRows(q, db))
+
+(* NOT the definition: the same query with the threshold of cmpt applied to the operand of the k-selection        *)
+(* (bottomk(k, X > c) instead of bottomk(k, X) > c).  The case enumeration uses it to tell on which cases the     *)
+(* order of the two is observable.                                                                               *)
+EvalMetricCmpBeforeTop(q, db) == PointsOf(q, TopSel(q, {a \in AggRows(q, db) : CmpHolds(q, q.mq.cmpt, a.v)}))
 =============================================================================
